@@ -404,6 +404,46 @@ func c18(r *mon.Run) {
 			goDoc := docs.StructDoc(gen.DeriveN(r.Seed, "c18ffdoc", i%11), form)
 			c18Equiv(r, t, "foreign-fields-in-multi-selects", i, gen.Chain(nil, st...), goDoc, lower, false)
 		}}
+	// right-hand sides that turn a null element into a value (fallbacks with ||, negations, length of a fallback)
+	// behind every projection kind over slices of pointers with nil entries: a nil entry is a null element, not
+	// an absent one
+	ptrPaths := []string{"PIns", "In.PLeaves", "PIn.PLeaves", "Ins", "@"}
+	nullRHS := func(lower bool) []gen.Step {
+		n, s := gen.Field(docs.KeyName("Name", lower)), gen.Field(docs.KeyName("S", lower))
+		return []gen.Step{
+			gen.StFunc("length", gen.Or(n, gen.Raw("xx"))), gen.StFunc("length", gen.Or(s, gen.Raw("y"))), gen.StMultiList(gen.Or(n, gen.Raw("none")), gen.Not(gen.Current())),
+			gen.StMultiHash([]gen.Key{{Name: "n"}}, []*gen.Expr{gen.And(gen.Not(n), gen.Raw("unset"))}), gen.StFunc("length", gen.Or(gen.Field(docs.KeyName("Tags", lower)), gen.LitJSON("[1,2,3]"))),
+			gen.StMultiList(gen.Cmp("==", gen.Current(), gen.LitJSON("null")), gen.Cmp("==", n, s)),
+		}
+	}
+	pkinds := []gen.Step{gen.StListStar(), gen.StFilter(gen.Not(gen.Current())), gen.StFilter(gen.Current()), gen.StFlatten(), gen.StSliceS("", "", ""), gen.StFilter(gen.Cmp("==", gen.Current(), gen.LitJSON("null")))}
+	nnr := len(ptrPaths) * len(pkinds) * 6 * 4 * 6
+	nrw := mon.Workload{Name: "null-reviving-right-hand-sides", N: nnr,
+		Do: func(i int, t *mon.Tally) {
+			k := i
+			seed := k % 6
+			k /= 6
+			form := k % 4
+			k /= 4
+			lower := i%5 == 3
+			rhs := nullRHS(lower)[k%6]
+			k /= 6
+			pk := pkinds[k%len(pkinds)]
+			sp := ptrPaths[k/len(pkinds)%len(ptrPaths)]
+			var st []gen.Step
+			if sp != "@" {
+				st = pathSteps(sp, lower)
+			}
+			if form >= 2 && sp != "@" {
+				st = append([]gen.Step{gen.StIndex(int64(seed % 2))}, st...)
+			}
+			if form < 2 && sp == "@" {
+				st = pathSteps("PIns", lower)
+			}
+			st = append(st, pk, rhs)
+			goDoc := docs.StructDoc(gen.DeriveN(r.Seed, "c18nrdoc", seed), form)
+			c18Equiv(r, t, "null-reviving-right-hand-sides", i, gen.Chain(nil, st...), goDoc, lower, false)
+		}}
 	idxs := []int64{-9, -6, -5, -4, -3, -2, -1, 0, 1, 2, 3, 4, 5, 8}
 	nfi := len(slicePaths) * len(idxs) * 4 * 4
 	fiw := mon.Workload{Name: "far-indices-on-typed-slices", N: nfi,
@@ -518,7 +558,7 @@ func c18(r *mon.Run) {
 			t.Nontrivial("anon:" + expr)
 			t.Count("anonymous / local struct type cases agreeing with the JSON form")
 		}}
-	r.Exec(eq, paths, oddw, ffw, fiw, emb, anon, safety, hostile)
+	r.Exec(eq, paths, oddw, ffw, fiw, nrw, emb, anon, safety, hostile)
 }
 
 func pickKey(operand string) string {
